@@ -16,7 +16,13 @@ def build_cases(rng, tier):
         if be == 'cxx' and "-CF" in opts:
             opts = ["-Cf"]
         c = streamprog.gen_stream_case(r, "e%d" % i, {'edit'} if i % 4 else {'edit', 'wrap'}, backend=be, flex_opts=opts)
-        if r.chance(30) and not __import__('os').environ.get('NOARRAY'):
+        if i % 5 == 2:
+            # %array keeps the yymore() text in the yytext array: full tables (back-up case of the action switch), yyless after yymore
+            be = r.weighted([('nr', 4), ('r', 3), ('c99', 3)])
+            c = streamprog.gen_stream_case(r, "e%d" % i, {'edit', 'more'} if i % 10 == 2 else {'edit', 'more', 'wrap'}, backend=be,
+                                           flex_opts=r.pick([["-Cf"], ["-CF"], ["-Cfe"], ["-CFe"], [], ["-Cm"]]))
+            c['extra_options'] = ["array"]
+        elif r.chance(30):
             c['extra_options'] = ["array"]
         c['cc_extra'] = r.pick([[], [], ["-DYY_BUF_SIZE=16"], ["-DYY_BUF_SIZE=64"], ["-DYY_BUF_SIZE=7"]]) if be in ('nr', 'r', 'cxx') else []
         cases.append(c)
